@@ -470,27 +470,22 @@ def abstract(world):
                 # does its flush close the channel?
                 dd = len(ctx_at[j])
                 closes = False
+                failed = False
                 first_op = None
                 trig = None
-                raised = False
                 for j2, (t2, k2, d2) in following(j):
                     if k2 == "exit" and d2 == "send_continue" and len(ctx_at[j2]) == dd:
-                        # an exception leaves received() at once: the next operation is the release
-                        for j3, (t3, k3, d3) in following(j2):
-                            if is_op(j3):
-                                raised = (k3 == "release" and d3 == rlock)
-                                break
                         break
                     if is_op(j2) and first_op is None:
                         first_op = j2
-                    if k2 == "W:connected" and top(ctx_at[j2]) == "handle_close" and not closes:
+                    if k2 == "W:connected" and top(ctx_at[j2]) == "handle_close" and not closes and not failed:
                         closes = True
                         trig = j2
-                if raised and not closes:
-                    items.append("x")
-                    break
-                items.append("d" if closes else "c")
-                io["cont"][trig if closes else first_op] = True
+                    if k2 == "W:will_close" and "_flush_exception" in ctx_at[j2] and not closes and not failed:
+                        failed = True
+                        trig = j2
+                items.append("d" if closes else ("f" if failed else "c"))
+                io["cont"][trig if (closes or failed) else first_op] = True
         return "io:data:" + ("".join(items) or "-")
 
     def hw_outcome(i):
@@ -762,8 +757,17 @@ def abstract(world):
                 emit(i, W)
                 st["ph"] = "keep_rq" if val else "keep_e"
             elif ph == "keep_e":
-                # the elif (then possibly send_continue(do_close=False): no model effect)
-                emit(i, W)
+                # the elif; then possibly send_continue(do_close=False), whose flush error is the
+                # step taken here (the W:will_close event is then the trigger)
+                fails = False
+                for j, (t2, k2, d2) in following(i):
+                    if k2 == "release" and d2 == rlock and top(ctx_at[j]) == "service":
+                        break
+                    if k2 == "W:will_close" and "_flush_exception" in ctx_at[j]:
+                        fails = True
+                        break
+                if not fails:
+                    emit(i, W)
                 st["ph"] = "rel"
             elif ph in ("tail", "task", "rel"):
                 pass
@@ -1088,12 +1092,12 @@ SIGNATURE = {
         'call:close',
     "channel.HTTPChannel.service":
         'R:requests if() { } else { } try { if(R:connected R:will_close) { call:service } else { } } '
-        'except(ClientDisconnected) { } except(Exception) { if() { if() { } else { } try { } except(KeyError) '
-        '{ } try { call:service } except(ClientDisconnected) { } } else { } } if() { with(requests_lock) { '
-        'W:close_when_flushed=True for(R:requests) { call:close } W:requests=[] } } else { if(R:requests) { '
-        'call:_flush_outbufs_below_high_watermark } if() { } call:close with(requests_lock) { R:requests '
-        'if(R:connected R:requests) { call:add_task } elif(R:connected) { call:send_continue(do_close=False) '
-        '} } } if(R:connected) { call:pull_trigger }',
+        'except(ClientDisconnected) { } except(BaseException) { if() { if() { } else { } try { } '
+        'except(KeyError) { } try { call:service } except(ClientDisconnected) { } } else { } } if() { '
+        'with(requests_lock) { W:close_when_flushed=True for(R:requests) { call:close } W:requests=[] } } '
+        'else { if(R:requests) { call:_flush_outbufs_below_high_watermark } if() { } call:close '
+        'with(requests_lock) { R:requests if(R:connected R:requests) { call:add_task } elif(R:connected) { '
+        'call:send_continue(do_close=False) } } } if(R:connected) { call:pull_trigger }',
     "channel.HTTPChannel.write_soon":
         'if(R:connected) { } if() { with(outbuf_lock) { call:_flush_outbufs_below_high_watermark '
         'if(R:connected) { } if() { } else { if() { } } if(R:total_outbufs_len) { '
@@ -1117,7 +1121,7 @@ SIGNATURE = {
     "wasyncore.dispatcher.close":
         'W:connected=False if() { try { call:close } except(OSError) { if() { } } }',
     "channel.HTTPChannel.send_continue":
-        'with(outbuf_lock) { call:_flush_some(do_close=do_close) }',
+        'with(outbuf_lock) { call:_flush_exception(do_close=do_close) }',
     "channel.HTTPChannel._flush_some_if_lockable":
         'if() { try { call:_flush_some(do_close=do_close) if(R:total_outbufs_len) { } } finally { } }',
     "channel.HTTPChannel._flush_some":
